@@ -37,7 +37,8 @@ var timeType = reflect.TypeOf(time.Time{})
 type ident struct {
 	p unsafe.Pointer
 	k reflect.Kind
-	n int // length for slices (same array, other length = other slice)
+	n int          // length for slices (same array, other length = other slice)
+	t reflect.Type // a struct and its first field share an address, not an identity
 }
 
 // P is one projection context: one type table, any number of values.
@@ -204,7 +205,7 @@ func (v *V) slot(rv reflect.Value, depth int) M {
 		e := rv.Elem()
 		switch {
 		case e.Kind() == reflect.Struct && e.Type() != timeType:
-			id := ident{unsafe.Pointer(rv.Pointer()), reflect.Struct, 0}
+			id := ident{unsafe.Pointer(rv.Pointer()), reflect.Struct, 0, e.Type()}
 			if n, ok := v.seen[id]; ok {
 				return M{"k": "p", "i": n, "d": depth + 1}
 			}
@@ -234,7 +235,7 @@ func (v *V) slot(rv reflect.Value, depth int) M {
 		}
 		var id ident
 		if rv.Kind() == reflect.Slice {
-			id = ident{unsafe.Pointer(rv.Pointer()), reflect.Slice, rv.Len()}
+			id = ident{unsafe.Pointer(rv.Pointer()), reflect.Slice, rv.Len(), rv.Type()}
 			if n, ok := v.seen[id]; ok && v.Nodes[n-1]["t"] == v.p.TypeID(rv.Type()) {
 				return M{"k": "p", "i": n, "d": depth}
 			}
@@ -257,7 +258,7 @@ func (v *V) slot(rv reflect.Value, depth int) M {
 		if rv.Len() == 0 {
 			return M{"k": "empty"}
 		}
-		id := ident{unsafe.Pointer(rv.Pointer()), reflect.Map, 0}
+		id := ident{unsafe.Pointer(rv.Pointer()), reflect.Map, 0, rv.Type()}
 		if n, ok := v.seen[id]; ok {
 			return M{"k": "p", "i": n, "d": depth}
 		}
